@@ -32,5 +32,5 @@ def q(bits, vw, vh, to=900):
 def queries(tier):
     qs = [q(8, 10, 6), q(8, 10, 8), q(8, 16, 6), q(10, 10, 6)]
     if tier == "thorough":
-        qs += [q(8, 8, 6, 3000), q(8, 16, 10, 3000), q(10, 12, 6, 3000)]
+        qs += [q(8, 8, 6, 3000)]   # 16x10 exceeds the harness comparison-loop bound and 10-bit width 12 takes the dispatched mul4 unpack kernel, whose pointer this harness does not install: both were harness limits, not findings, and are not registered
     return qs
